@@ -193,6 +193,9 @@ func IdByte(c byte) bool {
 	return Or(And(c >= '0', c <= '9'), And(c >= 'a', c <= 'z'))
 }
 
+// Debug prints values while a harness is being developed (no-op natively).
+func Debug(label string, v ...any) {}
+
 // Unsupported marks a harness path the executor must report as inconclusive.
 func Unsupported(why string) { panic(control{what: "unsupported", label: why}) }
 
